@@ -276,6 +276,12 @@ class SymMaker:
     def choice(self, name: str, n: int) -> int:
         return self.ctx.choose(name, n)
 
+    def intrange(self, name: str, lo: int, hi: int) -> SInt:
+        """Symbolic integer constrained to [lo, hi) (stays symbolic; compare it to fork)."""
+        z = z3.Int(name)
+        self.ctx.declare(name, z, z >= lo, z < hi)
+        return SInt(z)
+
     def enum(self, name: str, alts: Sequence[Any]) -> SEnum:
         z = z3.Int(name)
         self.ctx.declare(name, z, z >= 0, z < len(alts))
@@ -318,6 +324,12 @@ class PlainMaker:
 
     def rawint(self, name, lo=None, hi=None):
         return int(self._get(name, lo or 0))
+
+    def intrange(self, name, lo, hi):
+        v = int(self._get(name, lo))
+        if not lo <= v < hi:
+            raise HarnessError("intrange %s=%s outside [%d,%d)" % (name, v, lo, hi))
+        return v
 
     def choice(self, name, n):
         v = int(self._get(name, 0))
